@@ -40,6 +40,7 @@ type Spec struct {
 	Out             string            `json:"out"`
 	Trace           bool              `json:"trace"`
 	NoEnum          bool              `json:"no_enum"`
+	Goroutines      bool              `json:"goroutines"` // cooperative goroutine model (goroutines.go)
 }
 
 func (s *Spec) knownTag(tag string) bool {
